@@ -317,13 +317,20 @@ theorem lookupAll_snoc (values : List Item) (idx : List Nat) (its : List Item) (
       · simp at h
       · simp at h
 
+theorem sublist_flatMap_length {α β : Type} (f : α → List β) {l₁ l₂ : List α} (h : l₁.Sublist l₂) :
+    (l₁.flatMap f).length ≤ (l₂.flatMap f).length := by
+  induction h with
+  | slnil => simp
+  | cons a _ ih => simp only [List.flatMap_cons, List.length_append]; omega
+  | cons_cons a _ ih => simp only [List.flatMap_cons, List.length_append]; omega
+
 /-- invariant of `Dictionary.Add`. -/
 structure Dict.Inv (d : Dict) (its : List Item) : Prop where
   look : lookupAll d.values d.indices = .ok its
   size : d.values.length ≤ maxUniqueValues
   ilen : d.indices.length = its.length
   ibound : ∀ i ∈ d.indices, i < d.values.length
-  vsub : ∀ v ∈ d.values, v ∈ its
+  vsl : d.values.Sublist its
 
 theorem Dict.add_inv (d d' : Dict) (its : List Item) (v : Item) (hi : d.Inv its) (h : d.add v = some d') :
     d'.Inv (its ++ [v]) := by
@@ -344,7 +351,7 @@ theorem Dict.add_inv (d d' : Dict) (its : List Item) (v : Item) (hi : d.Inv its)
         rcases hj with hj | rfl
         · exact hi.ibound j hj
         · exact hlt,
-      fun w hw => by simp [hi.vsub w hw]⟩
+      hi.vsl.trans (List.sublist_append_left _ _)⟩
   · split at h
     · simp at h
     · rename_i hfull
@@ -359,11 +366,7 @@ theorem Dict.add_inv (d d' : Dict) (its : List Item) (v : Item) (hi : d.Inv its)
         rcases hj with hj | rfl
         · have := hi.ibound j hj; omega
         · omega
-      · intro w hw
-        simp only [List.mem_append, List.mem_singleton] at hw ⊢
-        rcases hw with hw | rfl
-        · exact Or.inl (hi.vsub w hw)
-        · exact Or.inr rfl
+      · exact List.Sublist.append hi.vsl (List.Sublist.refl _)
 
 theorem Dict.addAll_inv (d d' : Dict) (pre its : List Item) (hi : d.Inv pre) (h : Dict.addAll d its = some d') :
     d'.Inv (pre ++ its) := by
@@ -377,11 +380,15 @@ theorem Dict.addAll_inv (d d' : Dict) (pre its : List Item) (hi : d.Inv pre) (h 
       simpa using this
     · simp at h
 
+theorem Dict.Inv.vsub {d : Dict} {its : List Item} (hi : d.Inv its) : ∀ v ∈ d.values, v ∈ its :=
+  fun _ hv => hi.vsl.subset hv
+
 theorem Dict.empty_inv : Dict.empty.Inv [] :=
   ⟨rfl, by simp [Dict.empty, maxUniqueValues], rfl, by simp [Dict.empty], by simp [Dict.empty]⟩
 
 theorem Dict.decode_encode (z : Zstd) (hz : z.Lawful) (d : Dict) (its : List Item) (hi : d.Inv its)
-    (hlen : its.length < 2 ^ 31) (hitems : ∀ it ∈ d.values, itemLen it < 2 ^ 64) :
+    (hlen : its.length < 2 ^ 31) (hitems : ∀ it ∈ d.values, itemLen it < 2 ^ 64)
+    (htot : (d.values.flatMap itemBytes).length < 2 ^ 64) :
     Dict.decode z (d.encode z) its.length = .ok its := by
   unfold Dict.decode Dict.encode
   have hvl : d.values.length < 2 ^ 64 := by have := hi.size; unfold maxUniqueValues at this; omega
@@ -398,7 +405,7 @@ theorem Dict.decode_encode (z : Zstd) (hz : z.Lawful) (d : Dict) (its : List Ite
     have : its = [] := List.eq_nil_of_length_eq_zero this.symm
     rw [this]
   · simp only [h0, if_false]
-    rw [decodeBytesBlockWithTail_rt z hz d.values _ (by have := hi.size; unfold maxUniqueValues at this; omega) hitems]
+    rw [decodeBytesBlockWithTail_rt z hz d.values _ (by have := hi.size; unfold maxUniqueValues at this; omega) hitems htot]
     simp only
     have hb : ∀ v ∈ encodeRLE d.indices, v < 2 ^ 32 := by
       cases hx : d.indices with
